@@ -636,10 +636,15 @@ where
         });
         // Deallocate the key of the taken in-flight round out of the lock critical section.
         drop(inflight_key);
-        if !inserted {
-            // Not inserted; the returned entry still owns one reference.
+        let source = if inserted {
+            source
+        } else {
+            // Not inserted (the fetch round was closed, e.g. by an explicit insert of the key); the returned entry still
+            // owns one reference. The record is stale: a disk-only (phantom) one must not be handed to the disk cache
+            // when the entry is dropped, which only happens for `Source::Outer`.
             record.inc_refs(1);
-        }
+            Source::Memory
+        };
 
         // Notify waiters out of the lock critical section.
         for notifier in notifiers {
